@@ -210,6 +210,22 @@ impl<'a, P: ?Sized + PathImpl> PathMutImpl<'a, P> {
 			buffer.extend_from_slice(segment.as_bytes())
 		}
 
+		let relative = self.is_relative();
+		let shield = if buffer.first() == Some(&b'/') {
+			// AMBIGUITY: the first normalized segment is empty; written as is
+			//            it would be read as the start of an authority (or
+			//            turn a relative path into an absolute one).
+			relative || !self.follows_authority
+		} else {
+			// AMBIGUITY: `a/../b:c` would become `b:c`, but `b` is not the
+			//            scheme.
+			relative && self.start == 0 && parse::first_segment_contains_colon(&buffer)
+		};
+
+		if shield {
+			buffer.insert_many(0, *b"./");
+		}
+
 		let start = self.first_segment_offset();
 		replace(self.buffer, start..self.end, &buffer);
 		self.end = start + buffer.len();
